@@ -7,7 +7,7 @@ use pc_keyboard::*;
 
 /// One symbolic evaluation of `l` against its oracle `O`.
 /// `caps`: false = CapsLock off (quick tier); true = CapsLock symbolic, with the expectation that
-/// CapsLock swaps base/shift exactly on letter cells (the C10 reading of "whatever the lock flags").
+/// a letter cell may show either of its two legends (which one is C10's business).
 pub fn c03_check<L: KeyboardLayout, O: CharOracle>(name: &str, l: &L, caps: bool) {
     let k = any_key();
     let m = any_mods();
@@ -23,12 +23,14 @@ pub fn c03_check<L: KeyboardLayout, O: CharOracle>(name: &str, l: &L, caps: bool
     let out = l.map_keycode(k, &m, h);
     crate::show!("C03 {} key={:?} mods={:?} mode={:?} level={} out={:?}", name, k, m, h, level, out);
     if level < 2 {
-        if m.capslock && O::letter_cell(k) {
-            level = 1 - level;
-        }
+        // With CapsLock on, a letter cell may show either of its two legends (which one is C10's
+        // business, not C03's); every other cell shows the legend of the level selected by Shift.
+        let either = m.capslock && O::letter_cell(k);
         match out {
             DecodedKey::Unicode(c) => {
-                if let Some(ok) = O::ok(k, level, c) {
+                if either {
+                    assert!(O::ok(k, 0, c) == Some(true) || O::ok(k, 1, c) == Some(true), "C03: character differs from the national layout standard (CapsLock on)");
+                } else if let Some(ok) = O::ok(k, level, c) {
                     assert!(ok, "C03: character differs from the national layout standard");
                 }
             }
